@@ -56,3 +56,11 @@ claim("C07",
       "Trusts rustc MIR + extractor; behaviour when remove_audit itself fails, kernel-side reuse races and hyper's per-request "
       "service invocation are not decided.",
       "DESIGN.md §5 C07")
+
+claim("C10",
+      "single-snapshot provenance (def-use) at every signing site + actor state shape",
+      "Decides for every interleaving that the key id and the MAC key of each authorization header come from one read of the "
+      "shared key state: both operands at each signing site must derive from one actor round-trip (or one &Key parameter). This "
+      "removes the interleaving point instead of exploring schedules; with it the pairing is schedule-independent by construction.",
+      "Trusts tokio mpsc/oneshot delivering the value sent, immutability of a read Key value, rustc MIR + extractor.",
+      "DESIGN.md §5 C10")
